@@ -382,6 +382,14 @@ def family():
         [cf('note', '"n/a"', ('max_length', '50')), cf('qty', '0', ('null', 'false'))],
         [add('extra', '7'), cf('note', None, ('max_length', '30')), cf('score', '-1', ('null', 'false'))],
         [cf('qty', '0', ('null', 'false')), cf('score', '-1', ('null', 'false')), add('extra', '7')],
+        # a field renamed and renamed back in one batch (the optimiser folds the two into a rename onto itself),
+        # then changes that rebuild the table
+        [{'t': 'RenameField', 'model': 'Alpha', 'old': 'note', 'new': 'memo', 'db_column': None, 'db_table': None},
+         {'t': 'DeleteField', 'model': 'Alpha', 'field': 'score'},
+         {'t': 'RenameField', 'model': 'Alpha', 'old': 'memo', 'new': 'note', 'db_column': None, 'db_table': None},
+         add('extra', '7'), cf('qty', '-1', ('null', 'false'))],
+        [{'t': 'RenameField', 'model': 'Alpha', 'old': 'code', 'new': 'code', 'db_column': 'code_col', 'db_table': None},
+         add('extra', '7')],
         # nullable new columns with a declared value for the rows that exist - falsy values included
         [{'t': 'AddField', 'model': 'Alpha', 'field': 'visits', 'ftype': 'IntegerField', 'initial': '0',
           'attrs': [['null', 'true']]},
@@ -457,6 +465,11 @@ def judge_rows(sig0, muts, before, after):
             continue
         d = table_and_column(final, dest[0], dest[1])
         if d is None:
+            # no mutation deleted the field, yet the simulated signature has lost it: whatever rebuilds the table
+            # next leaves its column (and every value in it) out
+            if final.get_app_sig('vapp') is not None and final.get_app_sig('vapp').get_model_sig(dest[0]) is not None:
+                problems.append('field %s.%s (originally %s.%s) is gone from the simulated signature although no '
+                                'mutation deleted it' % (dest[0], dest[1], model, field))
             continue
         t1, c1 = d
         if t1 not in after:
@@ -468,8 +481,18 @@ def judge_rows(sig0, muts, before, after):
             problems.append('table %s -> %s gained or lost rows' % (t0, t1))
             continue
         if rows1 and not any(c1 in r for r in rows1.values()):
-            # the table has no column of the expected name: a schema difference (C01 / C03 judge it, see
-            # finding F56), not a statement about the values stored in that column
+            # the table has no column of the expected name.  When the values sit in a column of ANOTHER name it is a
+            # schema difference (C01 / C03 judge it, see finding F56); when no such column exists the values are gone
+            msig = final.get_app_sig('vapp').get_model_sig(dest[0])
+            expected = set()
+            for f in msig.field_sigs:
+                tc = table_and_column(final, dest[0], f.field_name)
+                if tc is not None and tc[0] == t1:
+                    expected.add(tc[1])
+            present = set(k for r in rows1.values() for k in r)
+            if not (present - expected):
+                problems.append('column %s.%s is missing after the evolution and no other column holds its values'
+                                % (t1, c1))
             continue
         nn = notnull.get(dest)
         for pk, r0 in rows0.items():
@@ -594,10 +617,13 @@ def run(ctx):
             if not aligned and multi_param(rep['mutations']):
                 ctx.fail(F_PARAMS, 'row data is wrong after a rebuild with several parameterised initials: %s'
                          % pb[0], rep)
-            elif (name_reuse(rep['mutations']) or touches_renamed_model(rep['mutations']) or
-                  initial_rollup(rep['mutations'])) and \
-                    optrig.model_explains_optimiser(ctx, rep['spec'], rep['mutations']):
-                ctx.count('general:batched_only_attributed_to_C03')      # optimiser findings F20/F21/F24
+            elif optrig.model_explains_optimiser(ctx, rep['spec'], rep['mutations']) and \
+                    (initial_rollup(rep['mutations']) or
+                     ((name_reuse(rep['mutations']) or touches_renamed_model(rep['mutations'])) and
+                      optrig.model_predicts_difference(ctx, rep['spec'], rep['mutations']))):
+                # optimiser findings F20/F21/F24: the optimiser does what its model does, and either an initial value
+                # was rolled up (a data-only effect) or, by the model, the optimised list ends in another signature
+                ctx.count('general:batched_only_attributed_to_C03')
             else:
                 ctx.fail(None, 'row data is not preserved (batched run): %s' % pb[0], rep)
 
